@@ -430,6 +430,7 @@ fn relay(m: &MeshSpec, seed: u64) -> MeshSpec {
             out.streams[st][at..at + sz].copy_from_slice(&b);
         }
     }
+    c06::copy_repeated_elements(&m.elements, &m.strides, &mut out.streams, m.vertex_count as usize);
     out
 }
 
